@@ -6,6 +6,20 @@ Shared helpers of the C03 / C06 / C18 / C29 rule modules.
                    a small path-sensitive query ("under required == True, can a `return` be reached?")
 * attr_sites       every syntactic use of one attribute name (`x._locked_cells`), classified
 * loop_breaks      `break` statements that leave one given loop
+Spelling-independent layer (second half of the file):
+* Expander         what a single-assignment local stands for (tuple unpacking -> e[i]); norm(e)
+* bind_call        arguments of a call matched against the callee's signature (positional/keyword)
+* Inliner / IFn    small same-class / same-module helpers dissolved into the caller (KEEP_A: the
+                   role-bearing functions that are never dissolved); synthetic `while True` wrappers
+                   (marked _inl) stand for helpers with early returns
+* Facts            FactReach over normalised atoms with case splitting on and/or, both polarities,
+                   `is None` read as falsy, facts established by assignments
+* Owners/followed  code found in a helper is attributed to its callers; the position-sensitive
+                   clauses then require the helper to be dissolved in the owner's inlined body
+* obj_sites        attr_sites following local aliases of the attribute
+* reaching_defs / value_at / values_at / derefs_at / returns_of   flow-sensitive "what does this
+                   name hold here" (every reaching binding is followed)
+* built_list       `x = []; for t in it: x.append(e)` read as the comprehension [e for t in it]
 Nothing here executes repository code.
 """
 import ast
